@@ -98,13 +98,17 @@ def run(spec, setup=None, readonly=False, label=None, built=None,
     if setup is not None:
         setup(r, rec)
     t0 = time.perf_counter()
+    import contextlib
+    import io
+    sink = io.StringIO()
     with warnings.catch_warnings(record=True) as wlist:
         warnings.simplefilter("always")
-        with ctx.active(r):
+        with ctx.active(r), contextlib.redirect_stdout(sink):
             try:
                 rec.res = problems.call_minimize(rec.built, **over)
             except BaseException as exc:  # noqa: BLE001 - outcome monitor
                 rec.exc = exc
+    rec.stdout_chars = len(sink.getvalue())
     rec.wall = time.perf_counter() - t0
     rec.warnings = [(w.category.__name__, str(w.message)) for w in wlist]
     if r.hook_errors:
